@@ -186,6 +186,17 @@ def rule_r1_stack(ctx: Ctx) -> None:
         return True, ""
     verdict("stack mapper: an int field is never served from the stack of another base type", P, [BOOL, P, P], {P: [("f", INT)]}, {}, [INT, BOOL, P], chk_b)
 
+    # (b2) a production that cannot be completed yet leaves no value on a stack of another type: whatever is built afterwards still has one value of
+    # each field's declared kind (values taken for the earlier fields may be lost or handed back to the stacks they came from, nothing else)
+    def chk_b2(trace, rv):
+        for t, args in built(trace):
+            if t == P and isinstance(args, list) and [kind_of(v) for v in args] != ["int", "bool"]:
+                return False, (f"after an attempt at P(f1: int, f2: bool) that failed for want of a bool, the next attempt builds P from {args!r}: a value "
+                               f"taken for one field ended up on the stack of another type")
+        return True, ""
+    verdict("stack mapper: a production attempt that fails midway leaves no value on the stack of another type", P, [INT, INT, P, P, INT, P],
+            {P: [("f1", INT), ("f2", BOOL)]}, {}, [INT, BOOL, P], chk_b2)
+
     # (c) abstract symbol -> a built production of it
     def chk_c(trace, rv):
         if rv is UNKNOWN and any(e.kind == "raise" for e in trace):
@@ -482,6 +493,23 @@ def rule_r3(ctx: Ctx) -> None:
                    "" if ok else f"'{norm(r.value)[:60]}' hands a bound back as it was given: with integer bounds (FloatRange(0, 9)) an int is "
                                  f"placed in a float-typed field")
     ctx.floor("C01.R3", nf, 3, "random_float return statements of random sources")
+    # ... and the other two primitives the deciders hand through unchanged: a coin flip is a bool (0 / 1 is truthy enough for every internal use and
+    # still an int in a bool-typed field), a bounded integer draw is an int
+    nb = 0
+    for meth, want in (("random_bool", "bool"), ("randint", "int")):
+        for f in prog.implementations(RANDOM_SOURCE_CLS, meth, include_base=True):
+            for r in walk_local(f.node):
+                if not (isinstance(r, ast.Return) and r.value is not None):
+                    continue
+                nb += 1
+                k = kind_of(ctx, f, r.value)
+                ok = k in (want, "?")
+                if k == "?":
+                    ctx.notes.append(f"{f.fullname}: kind of '{norm(r.value)[:50]}' could not be inferred (listed, no alarm)")
+                ctx.ob("C01.R3", f, r, f"{f.cls.name if f.cls else ''}.{meth} returns exactly {want}", ok,
+                       "" if ok else f"'{norm(r.value)[:60]}' has kind {k}, but {meth} must return exactly {want}: the deciders hand the value through, a {k} "
+                                     f"value is placed in a {want}-typed field", witness={"kind": k})
+    ctx.floor("C01.R3", nb, 4, "random_bool / randint return statements of random sources")
     # base-type branches of the creators
     for fname in (CREATE_NODE, STACK):
         fn = ctx.fn(fname)
